@@ -34,15 +34,16 @@ def _export(r, path):
 
 
 def _run_shard(ctx, binp, inp, outp):
-    """Run the harness over one shard; a hang makes it exit 3 after the hanging image, we resume behind it."""
+    """Run the harness over one shard; a hang makes it exit 3 after the hanging image, we resume behind it.
+    Returns False when the shard was abandoned (several hangs: the tree is broken, the evidence is in)."""
     done = 0
-    for _ in range(30):
+    for _ in range(6):
         p = ctx.run([binp, "run", "-in", inp, "-out", outp, "-seed", str(ctx.seed), "-skip", str(done)],
                     ok_codes=(0, 3))
         if p.returncode == 0:
-            return
+            return True
         done = sum(1 for _ in open(outp))
-    raise vf.Inconclusive("harness: more than 30 hanging images in one shard")
+    return False
 
 
 def _harness(ctx, binp, images, label):
@@ -56,8 +57,7 @@ def _harness(ctx, binp, images, label):
             f.write("\n".join(lines[i::k]) + "\n")
         shards.append((ip, os.path.join(ctx.scratch, "%s-obs-%d.ndjson" % (label, i))))
     with cf.ThreadPoolExecutor(max_workers=k) as ex:
-        for fu in [ex.submit(_run_shard, ctx, binp, ip, op) for ip, op in shards]:
-            fu.result()
+        complete = all([fu.result() for fu in [ex.submit(_run_shard, ctx, binp, ip, op) for ip, op in shards]])
     out = os.path.join(ctx.scratch, "%s-obs.ndjson" % label)
     n = 0
     with open(out, "w") as f:
@@ -65,8 +65,10 @@ def _harness(ctx, binp, images, label):
             for l in open(op):
                 f.write(l)
                 n += 1
-    if n != len(lines):
+    if complete and n != len(lines):
         raise vf.Inconclusive("harness produced %d observations for %d images" % (n, len(lines)))
+    if not complete:
+        ctx.log("%s: the real code hangs repeatedly; %d of %d images executed" % (label, n, len(lines)))
     return out
 
 
